@@ -231,7 +231,11 @@ class VGenericEngine:
                 return res[0]
         else:
             def newfunc(*args):
-                args = args[:i] + (backend.newp(BType, args[i]),) + args[i+1:]
+                # not 'newp(BType, args[i])': that would take None to mean
+                # "no initializer" instead of refusing it
+                p = backend.newp(BType, None)
+                p[0] = args[i]
+                args = args[:i] + (p,) + args[i+1:]
                 return oldfunc(*args)
         newfunc._cffi_base_type = base_tp
         return newfunc
